@@ -4,7 +4,16 @@ import random
 
 from gen_core import S, L, N, typed
 
-TYPES = [("agent", "object"), ("item", "object"), ("loc", "object")]
+TYPES = [("agent", "object"), ("item", "object"), ("loc", "object"), ("tool", "item"), ("dock", "loc")]
+PARENT = {"agent": "object", "item": "object", "loc": "object", "tool": "item", "dock": "loc", "object": None}
+
+
+def conforms(t, ty):
+    while t is not None:
+        if t == ty:
+            return True
+        t = PARENT[t]
+    return False
 PREDS = {"at": ["agent", "loc"], "has": ["agent", "item"], "on": ["item", "loc"], "clear": ["loc"], "done": ["item"],
          "busy": ["agent"], "alarm": []}
 FUNCS = {"load": ["agent"], "total": []}
@@ -52,6 +61,11 @@ TEMPLATES = {
     "count": ([["?a", "agent"]],
               [L(S(">="), L(S("load"), S("?a")), N(0))],
               [L(S("increase"), L(S("total")), L(S("+"), L(S("load"), S("?a")), N(1, 2)))]),
+    # the same predicates under narrower parameter types (tool - item, dock - loc): the same ground fact is then
+    # produced / consumed by actions that declare its arguments at different levels of the type tree
+    "sweep": ([["?a", "agent"], ["?d", "dock"]], [A("at", "?a", "?d")], [A("clear", "?d")]),
+    "seal": ([["?a", "agent"], ["?d", "dock"]], [A("at", "?a", "?d"), A("clear", "?d")], [NOT(A("clear", "?d"))]),
+    "stash": ([["?a", "agent"], ["?o", "tool"], ["?d", "dock"]], [A("at", "?a", "?d"), A("on", "?o", "?d")], [A("done", "?o")]),
     # actions without parameters (no agent of their own): legal members of a joint action
     "tick": ([], [], [L(S("increase"), L(S("total")), N(1))]),
     "hush": ([], [A("alarm")], [NOT(A("alarm"))]),
@@ -60,6 +74,7 @@ TEMPLATES = {
 
 def gen_domain(rng):
     names = ["move", "pick", "drop"] + rng.sample(["mark", "clean", "block", "rest", "inspect", "count", "disarm", "arm", "work", "signal"], rng.choice([3, 4, 5]))
+    names += rng.sample(["sweep", "seal", "stash"], rng.choice([0, 1, 2]))
     if rng.random() < 0.5:
         names.append(rng.choice(["tick", "hush"]))
     acts = []
@@ -78,8 +93,12 @@ def gen_domain(rng):
 def gen_problem(rng, n_agents):
     agents = [f"a{i + 1}" for i in range(n_agents)]
     items = [f"i{i + 1}" for i in range(rng.choice([2, 3]))]
-    locs = [f"l{i + 1}" for i in range(rng.choice([2, 3]))]
-    objs = [[a, "agent"] for a in agents] + [[i, "item"] for i in items] + [[x, "loc"] for x in locs]
+    locs = [f"l{i + 1}" for i in range(rng.choice([1, 2]))]
+    tools = ["t1"] if rng.random() < 0.6 else []
+    docks = ["d1"]
+    objs = [[a, "agent"] for a in agents] + [[i, "item"] for i in items] + [[x, "loc"] for x in locs] + \
+           [[x, "tool"] for x in tools] + [[x, "dock"] for x in docks]
+    items, locs = items + tools, locs + docks
     facts = [["at", [a, rng.choice(locs)]] for a in agents]
     facts += [["on", [i, rng.choice(locs)]] for i in items]
     facts += [["clear", [x]] for x in locs if rng.random() < 0.5]
